@@ -210,6 +210,42 @@ def r11d(ck, fb):
         hs = util.mut_calls_on_field(rm, 'perpetual_host_set', r'HashSet::<T, S, A>::remove$')
         ck.require(len(hs) == 1 and cond_on(rm, hs[0].bb, field_cond('ephemeral', False)), 'R11d', 'remove_instance:perpetual-under-!ephemeral', rm.where(),
                    'perpetual_host_set is not cleared exactly for non-ephemeral instances')
+        # R11k: ... on EVERY way a non-ephemeral instance leaves the map: from the entry no path reaches the return that passes the Some edge of
+        # instances.remove without passing perpetual_host_set.remove, except through a test that says the removed instance was ephemeral.
+        # (A raft-applied RemoveInstance and the log replay carry no client id: a clear that sits under `if let Some(client_id)` misses them.)
+        ck.rule('R11k', '"the set of persistent instances equals the non-ephemeral ones": whenever Service::remove_instance takes an instance out of the map, '
+                        'perpetual_host_set.remove is passed on every path from the function entry through the removal to the return, unless a test of '
+                        'the removed instance\'s ephemeral flag says it was ephemeral - for every caller: with a client id (HTTP / gRPC / console), '
+                        'and without one (the raft-applied RemoveInstance on the other nodes, the log replay after a restart)')
+        rmv0 = util.mut_calls_on_field(rm, 'instances', r'HashMap::<K, V, S, A>::remove$')
+        if hs and rmv0:
+            hsb = {x.bb for x in hs}
+            eph_true = set()
+            for (s0, d0, lab0, t0) in cfg.switch_edges(rm):
+                dd = cfg.describe_operand(rm, t0['discr'])
+                neg = False
+                while dd['k'] == 'un' and dd['op'] == 'Not':
+                    neg = not neg
+                    dd = cfg.describe_operand(rm, dd['a'])
+                if dd['k'] == 'place' and dd['fields'][-1:] == ['ephemeral']:
+                    pol = cfg.edge_polarity(t0, lab0)
+                    if pol is not None and (pol != neg):
+                        eph_true.add((s0, d0, lab0))
+            before = cfg.reach_from(rm, [0], blocked_blocks=hsb)
+            leak = []
+            for x in rmv0:
+                if x.bb in before:
+                    after = cfg.reach_from(rm, [x.bb], blocked_blocks=hsb, blocked_edges=eph_true)
+                    # only the Some edge matters: a None answer means nothing was stored
+                    some = util.option_edges(rm, [x], 'Some')
+                    after = set()
+                    for (s0, d0, lab0) in some:
+                        after |= cfg.reach_from(rm, [d0], blocked_blocks=hsb, blocked_edges=eph_true)
+                    leak += [r for r in rm.return_blocks() if r in after]
+            ck.require(not leak, 'R11k', 'remove_instance:perpetual-set-follows-every-removal', rm.where(),
+                       'remove_instance can take a persistent instance out of the map and return without clearing perpetual_host_set (a caller without a '
+                       'client id - the raft-applied RemoveInstance, the replay - does not pass the clear): the address stays in the persistent set '
+                       'with no instance, and an ephemeral re-registration of it is counted as persistent', 'cleared on every path of a non-ephemeral removal')
         # the healthy-true edge must reach the decrement (not skipped)
         rmv = util.mut_calls_on_field(rm, 'instances', r'HashMap::<K, V, S, A>::remove$')
         ck.require(len(rmv) == 1, 'R11d', 'remove_instance:single-removal', rm.where(), 'instances.remove is not called exactly once')
